@@ -41,7 +41,9 @@ T == << << 128, 203, 0, 0 >>,                                  \* BYE, no source
         << 160, 203, 0, 1, 0, 0, 0, 4 >>,                      \* BYE: header and 4 bytes of padding only
         << 160, 77, 0, 2, 0, 0, 0, 0, 0, 0, 0, 8 >>,           \* unknown type: header and 8 bytes of padding only
         << 129, 202, 0, 2, 0, 0, 0, 1, 8, 1, 5, 0 >>,          \* SDES, PRIV item whose prefix overruns the item
-        << 129, 202, 0, 2, 0, 0, 0, 1, 8, 0, 0, 0 >> >>        \* SDES, PRIV item without a prefix length
+        << 129, 202, 0, 2, 0, 0, 0, 1, 8, 0, 0, 0 >>,          \* SDES, PRIV item without a prefix length
+        << 64, 77, 0, 1, 5, 6, 7, 8 >>,                         \* unknown type, version 1
+        << 192, 242, 0, 0 >> >>                                  \* unknown type, version 3, header only
 
 Tails == << <<>>, << 7 >>, << 1, 2, 3 >>, << 128, 203, 0, 2 >>, << 128, 203, 0, 0, 0 >> >>
 
